@@ -98,7 +98,7 @@ def has_break(x) -> bool:
     return False
 
 
-SIDS = ["", "abc", "a/b", "../../etc/x", "..", ".", "mcp", "mcp.list", "default", "x" * 300, "x" * 5000, "a\x00b", "sp ace", "é中", "a.cache.tmp.1", "/abs/path", "-", "~", 5, 0, None, True, False, ["a"], [], {"a": 1}, {}, 1.5]
+SIDS = ["s\ud800", "\udc80", "", "abc", "a/b", "../../etc/x", "..", ".", "mcp", "mcp.list", "default", "x" * 300, "x" * 5000, "a\x00b", "sp ace", "é中", "a.cache.tmp.1", "/abs/path", "-", "~", 5, 0, None, True, False, ["a"], [], {"a": 1}, {}, 1.5]
 
 
 def gen_input(r, tree):
@@ -109,9 +109,9 @@ def gen_input(r, tree):
     if r.chance(0.8):
         v["session_id"] = r.pick(SIDS)
     if r.chance(0.7):
-        v["model"] = r.pick([{"display_name": "Opus"}, {"display_name": ""}, {"display_name": 5}, {"display_name": "a\nb"}, {}, 5, None, [], {"display_name": ["x"]}, {"display_name": "Sonnet 4 (1M context)"}])
+        v["model"] = r.pick([{"display_name": "Opus"}, {"display_name": ""}, {"display_name": 5}, {"display_name": "a\nb"}, {}, 5, None, [], {"display_name": ["x"]}, {"display_name": "Sonnet 4 (1M context)"}, {"display_name": "m\ud800"}, {"display_name": "\udfff x \U0001f424"}, {"display_name": "\x1b[31m\x07\x00"}])
     if r.chance(0.7):
-        v["workspace"] = r.pick([{"current_dir": tree.work}, {"current_dir": "/nonexistent/x"}, {"current_dir": 5}, {"current_dir": ["a"]}, {"current_dir": ""}, {}, 5, None, {"current_dir": "a\nb"}, {"current_dir": {"x": 1}}])
+        v["workspace"] = r.pick([{"current_dir": tree.work}, {"current_dir": "/nonexistent/x"}, {"current_dir": 5}, {"current_dir": ["a"]}, {"current_dir": ""}, {}, 5, None, {"current_dir": "a\nb"}, {"current_dir": {"x": 1}}, {"current_dir": "/tmp/a\udc00b"}, {"current_dir": tree.work + "/\ud83d"}])
     if r.chance(0.5):
         v["transcript_path"] = r.pick([os.path.join(tree.home, "t.jsonl"), "/nonexistent", 5, None, "", ["x"], tree.home])
     if r.chance(0.4):
@@ -198,7 +198,7 @@ def search(ctx):
                 entry = None
                 if isinstance(sid, str) or not sid:
                     name = (sid.replace("/", "_") if sid else "default") + ".cache" if isinstance(sid, str) or not sid else None
-                    if name and "\x00" not in name and len(name) < 200:
+                    if name and "\x00" not in name and len(name) < 200 and not has_surrogate(name):
                         entry = os.path.join(tree.cdir, name)
                 targets = {"cachedir": tree.cdir, "mcp": os.path.join(tree.cdir, "mcp.list"), "settings": os.path.join(tree.home, ".claude", "settings.json"), "mcplocal": os.path.join(tree.home, ".claude", "mcp.local.json"),
                            "transcript": os.path.join(tree.home, "t.jsonl"), "log": os.path.join(tree.home, ".claude", "dippy-statusline.log")}
